@@ -65,6 +65,7 @@ type Prop struct {
 	ObserveHarness []string // harness functions run natively AND through the engine on concrete vectors; their observations must agree
 	TestFiles []string // extra _test overlay files under /verif/harness
 	Instrument []Instr // textual instrumentation of repo files, applied in the overlay (symbolic and native alike)
+	Custom    func(p *Prop, tier string, seed int, evPath string) int // property-specific driver
 	Bounds    []string
 	Assumptions []string
 	Outside   []string
@@ -293,6 +294,9 @@ func runCheck(id, tier string) int {
 	os.MkdirAll(filepath.Dir(evPath), 0o755)
 	os.Remove(evPath)
 
+	if p.Custom != nil {
+		return p.Custom(p, tier, seed, evPath)
+	}
 	sc, ov, err := newScratch(p, true)
 	if err != nil {
 		fmt.Println("INCONCLUSIVE: cannot prepare the harness overlay:", err)
